@@ -1022,7 +1022,9 @@ def run_order(spec, tier, seed, res):
     import hashlib
 
     K = 120 if tier == "quick" else 300
-    lists = [("whole", build_call_list(seed + spec["rep"], K)), ("contend", build_contention_list(seed + spec["rep"], small=True))]
+    # (the contention list first: its projection family carries sixteen differently named extra fields, so whichever call
+    #  comes first in a process differs between the orders whatever the seed put into the other list)
+    lists = [("contend", build_contention_list(seed + spec["rep"], small=True)), ("whole", build_call_list(seed + spec["rep"], K))]
     for lname, calls in lists:
         idx = list(range(len(calls)))
         if spec["order"] == "reverse":
